@@ -149,6 +149,23 @@ def string_cases(tier, seed, want, tag, sizing=False, hostile=False,
             s = strgen.random_string(rng, toks, L + 1, 4 if (q and j % 2) else 14)
             if ok(s):
                 yield k, {'s': s, 'w': 'tokens-sampled'}
+    # separator grid: a command head, every sequence of up to 3 separator
+    # atoms (blanks, line breaks, comments, CR LF), then an opener or text -
+    # the small scope in which "attaches / stays / is given back" is decided
+    import itertools as _it
+    heads = [('\\foo', ''), ('\\foo{a}', ''), ('\\foo[a]', ''), ('\\foo[a]{b}', ''),
+             ('\\begin{itemize}\\item', '\\end{itemize}'), ('\\begin{a}', '\\end{a}'),
+             ('$\\alpha', '$'), ('{\\bf', '}')]
+    atoms = [' ', '\n', '\t', '%c\n', '%\n', '\r\n']
+    tails = ['[x]', '{x}', '[x', 'y', '\\bar', '']
+    for n in range(0, 4):
+        for seq in _it.product(atoms, repeat=n):
+            for (h0, h1), t in _it.product(heads, tails):
+                k += 1
+                if want(k) and (not q or n < 3 or k % 3 == 0):
+                    m = h0 + ''.join(seq) + t + h1
+                    if ok(m):
+                        yield k, {'s': m, 'w': 'sep-grid'}
     for origin, src in corpus.documents():
         k += 1
         if want(k) and ok(src):
